@@ -118,6 +118,48 @@ theorem C18_merged (rows : List (String × String)) (hn : (rows.map Prod.fst).No
   · intro hr v hv; rw [h, hr, hv]; simp [ruleResult]
   · intro hr; rw [h, hr]; simp [ruleResult]
 
+/-! ### merging the same new object twice is merging it once -/
+
+theorem sourceMerge_self (f : Option FVal) : sourceMerge f f = f := by
+  unfold sourceMerge
+  cases f with
+  | none => rfl
+  | some v =>
+    cases v <;> simp only []
+    split <;> (try split) <;> rfl
+
+theorem sourceMerge_idem (t f : Option FVal) : sourceMerge (sourceMerge t f) f = sourceMerge t f := by
+  rcases sourceMerge_cases t f with h | h
+  · rw [h]; exact h
+  · rw [h]; exact sourceMerge_self f
+
+theorem ruleResult_idem (r : Rule) (t f : Option FVal) :
+    ruleResult r (ruleResult r t f) f = ruleResult r t f := by
+  cases r with
+  | always => rfl
+  | ifFromSet => simp only [ruleResult]; split <;> simp_all
+  | ifToUnsetFromSet =>
+    simp only [ruleResult]
+    cases t <;> cases f <;> simp
+  | ifToUnset =>
+    simp only [ruleResult]
+    cases t <;> cases f <;> simp
+  | source => exact sourceMerge_idem t f
+  | bad s => rfl
+
+/-- Applying the same update a second time changes nothing: every property reads the same after
+two merges of `frm` as after one (for every rule table with distinct fields, whatever its rules). -/
+theorem C18_idempotent (rows : List (String × String)) (hn : (rows.map Prod.fst).Nodup)
+    (to frm : Fields) (m : String) :
+    (copyFields rows (copyFields rows to frm) frm).get? m = (copyFields rows to frm).get? m := by
+  have h1 := copyFields_get rows hn to frm
+  have h2 := copyFields_get rows hn (copyFields rows to frm) frm
+  by_cases hm : ∃ row ∈ rows, m = row.1
+  · obtain ⟨row, hrow, rfl⟩ := hm
+    rw [h2.1 row hrow, h1.1 row hrow]
+    exact ruleResult_idem _ _ _
+  · exact h2.2 m (fun row hr hEq => hm ⟨row, hr, hEq⟩)
+
 /-- The guards: a nil-like side, ids that are not equivalent, a type of `to` that differs from
 `from`'s, or an unsupported type are refused with an error (a refusal returns no new value for `to`:
 in the functional model `to` is untouched by construction, the correspondence checks it on the code). -/
